@@ -1,5 +1,5 @@
 """Which units exist, and what each claimed property covers / does not cover (copied into evidence)."""
-UNITS = ['budget', 'scalars', 'events', 'location', 'live', 'reader', 'snippet', 'quoting', 'typed', 'base64', 'crop', 'robotics', 'plain']
+UNITS = ['budget', 'scalars', 'events', 'location', 'live', 'reader', 'snippet', 'ring', 'quoting', 'typed', 'base64', 'crop', 'robotics', 'plain']
 
 GLOBAL_ASSUMPTIONS = [
     'Verus 0.2026.09.13 and its bundled Z3 are sound; the extractor rewrite rules R0..R37 preserve meaning; the bounded stand-in (vc/bounded.py) is only ever used to FIND failing inputs for functions Verus cannot take and is never counted as proof (DESIGN.md 3.2 and section 0)',
